@@ -111,7 +111,8 @@ class PickleTie:
         self.attr_pending = []
         self.census = {}
         self.tot = {"programs": 0, "ops": 0, "bytes": 0, "heap_cells": 0, "reachable_cells": 0, "instances": 0, "strings": 0,
-                    "shared_refs": 0, "shared_strings": 0, "cyclic_components": 0, "cells_on_cycles": 0, "vm_cells_allocated": 0}
+                    "shared_refs": 0, "shared_strings": 0, "cyclic_components": 0, "cells_on_cycles": 0, "vm_cells_allocated": 0,
+                    "heaps_satisfying_the_hypothesis_of_theorem_roundtrip": 0}
         self.census_directed = {}
         self.seconds = 0.0
         self.classes = {}
@@ -169,13 +170,20 @@ class PickleTie:
                      {"op": "pickle-canon", "heap": hm, "root": rm},
                      {"op": "pickle-canon", "heap": hr, "root": rr},
                      {"op": "pickle-dump", "heap": hm, "root": rm},
-                     {"op": "pickle-roundtrip", "heap": hm, "root": rm}]
+                     {"op": "pickle-roundtrip", "heap": hm, "root": rm},
+                     {"op": "pickle-supported", "heap": hm, "root": rm}]
         got = self.drv.call_many(reqs)
         agot = self.drv.call_many(areqs)
         res = self.res
         for k, (inp, nbytes, ops, (hm, rm, im), (hr, rr, ir), attrs) in enumerate(pend):
-            vm, cm, cr, dm, rt = got[5 * k: 5 * k + 5]
+            vm, cm, cr, dm, rt, sp = got[6 * k: 6 * k + 6]
             res.disagreements_checked += 4
+            # is this real heap inside the hypothesis `Supported` of theorem `roundtrip` (then its round trip is proved)?
+            if sp.get("ok") is True:
+                self.tot["heaps_satisfying_the_hypothesis_of_theorem_roundtrip"] += 1
+            else:
+                res.count("pickle:heap-outside-Supported")
+                res.notes.append("a real .save heap is outside the hypothesis `Supported` of theorem roundtrip (round trip then only evaluated): %s" % inp.get("entry"))
             # graphs are compared modulo the identity of strings of <= 1 character (interpreter singletons: the unpickler
             # always returns the singleton, a live graph need not hold it) — see pickleio.modulo_short_strings
             exact = "ok" in cm and "ok" in cr and cm["ok"] == cr["ok"]
@@ -299,7 +307,8 @@ class PickleTie:
             "classes_with___setstate__": sorted(self.setstate), "dict_key_types": self.key_kinds,
             "obligations_per_program": ["canon(LeanVM(real bytes)) = canon(reloaded graph, fresh process)", "canon(in-memory graph) = canon(reloaded graph)",
                                         "Lean dump(in-memory heap) = real opcode list modulo PROTO/FRAME/spelling",
-                                        "canon(run(dump h r)) = canon h r evaluated on the in-memory heap"]}
+                                        "canon(run(dump h r)) = canon h r evaluated on the in-memory heap",
+                                        "supportedB(in-memory heap, root) evaluated: the hypothesis of theorem C16Pickle.roundtrip (counted, not required)"]}
         if self.setstate:
             res.notes.append("pickled classes defining __setstate__ (BUILD on them is outside the model): %s" % sorted(self.setstate))
 
